@@ -580,9 +580,11 @@ pub fn h_c17_spans() {
         sym::assume((ch != ' ') & (ch != '\t') & (ch != '\n'));
     }
     let fragment = sym::choose("fragment", 2) == 1;
+    // white space before the first markup (allowed in documents and fragments alike)
+    let lead = ["", "\n "][sym::choose("lead", 2)];
     let src = format!(
-        "<!--{}--><p:a xmlns:p=\"u\" x=\"{}\" p:y='w'>{}<!--{}--><?pi {}?>g<![CDATA[{}]]>{}<b/></p:a>",
-        pad, v, t, c, d, e, f
+        "{}<!--{}--><p:a xmlns:p=\"u\" x=\"{}\" p:y='w'>{}<!--{}--><?pi {}?>g<![CDATA[{}]]>{}<b/></p:a>",
+        lead, pad, v, t, c, d, e, f
     );
     let r = if fragment { xot.parse_fragment_with_span_info(&src) } else { xot.parse_with_span_info(&src) };
     let (doc, si) = match r {
@@ -616,7 +618,7 @@ pub fn h_c17_spans() {
         let merged = format!("g<![CDATA[{}]]>{}", e, f);
         // from the first to the last merged part: the run starts at 'g' and ends after f
         let got = slice(SpanInfoKey::Text(kids[3]));
-        sym::check("merged-text-span-start-to-end", got.as_deref().map(|g| merged.ends_with(g) || g == merged).unwrap_or(false) && got.as_deref().map(|g| g.ends_with(f.as_str())).unwrap_or(false));
+        sym::check("merged-text-span-start-to-end", got.as_deref() == Some(merged.as_str()));
         sym::check("empty-element-start-span", slice(SpanInfoKey::ElementStart(kids[4])).as_deref() == Some("b"));
         sym::check("empty-element-end-span", slice(SpanInfoKey::ElementEnd(kids[4])).as_deref() == Some("/>"));
         sym::check("decoded-slice-is-the-value", xot.text_str(kids[0]) == Some(t.as_str()));
